@@ -33,6 +33,7 @@ type Op struct {
 	X     *XRead      `json:"x,omitempty"`     // K = "X": an explicit statement-level read (corpus witnesses)
 	Agg   []XAgg      `json:"agg,omitempty"`   // aggregate results observed after the op (file-cursor path)
 	Reads []ReadObs   `json:"reads,omitempty"` // shaped reads observed after the op (replayed on the model's read_layout)
+	Lim   []ReadObs   `json:"lim,omitempty"`   // LIMIT/OFFSET reads observed after the op (replayed on the model's limit predicate)
 	// observations after the op
 	Files []tsdrv.File              `json:"files"`
 	Dump  map[string][]tsdrv.OutRow `json:"dump"` // all fields, full range, ascending; key = series
@@ -45,8 +46,9 @@ type ReadObs struct {
 	Tmax   int                       `json:"tmax"`
 	Fields []int                     `json:"fields"`
 	Asc    bool                      `json:"asc"`
-	Kind   string                    `json:"kind"` // plain | zone
-	Arr    [][2]int                  `json:"arr,omitempty"` // flat read through ONE group cursor: (series, time) in arrival order
+	Kind   string                    `json:"kind"`           // plain | zone
+	Arr    [][2]int                  `json:"arr,omitempty"`  // flat read through ONE group cursor: (series, time) in arrival order
+	Need   int                       `json:"need,omitempty"` // limit reads: limit + offset
 	Rows   map[string][]tsdrv.OutRow `json:"rows"`
 }
 
@@ -388,9 +390,10 @@ func runHistory(idx int, work string, nser, nwal int, auto bool, in []Op, qr *ge
 			h.XKinds[op.X.Kind]++
 		}
 		if xreads && qr.Chance(2, 3) {
-			xf, n, aggs, zone := extraReads(i, sh, lww, qr, nser, files, h.XKinds)
+			xf, n, aggs, zone, lim := extraReads(i, sh, lww, qr, nser, files, h.XKinds)
 			op.Agg = append(op.Agg, aggs...)
 			op.Reads = append(op.Reads, zone...)
+			op.Lim = append(op.Lim, lim...)
 			h.XOracle = append(h.XOracle, xf...)
 			h.XReads += n
 		}
